@@ -4,6 +4,12 @@
 (*   write(recs) -> bytes, errs     the real writer on a list of records     *)
 (*   read(bytes, mode) -> recs      the real reader; every item Ok(fields) / *)
 (*                                  Err                                      *)
+(*   write_file(recs, pid) -> bytes, errs   Writer::to_file on path pid; bytes = *)
+(*                                  content of the file afterwards             *)
+(*   read_file(pid) -> recs         Reader::from_file on path pid              *)
+(* The abstract state of a path is the list of records last written to it:    *)
+(* read_file must return exactly the records of the latest write_file to the  *)
+(* same path (nothing of an earlier, longer file may survive).                *)
 (* mode "exact": bytes are those of an earlier write of this run: the parsed *)
 (*               records must equal the written ones field for field (all    *)
 (*               attribute values, value order per key), and the reference   *)
@@ -77,6 +83,11 @@ BedSame(p, q) ==
 BedRoundTrip(p, w) ==
     p.ok = 1 /\ p.chrom = w.chrom /\ p.start = w.start /\ p.end = w.end /\ p.aux = w.aux
 
+\* latest earlier write_file to this path (0 = none)
+PrevWriteFile(evs, k, pid) ==
+    LET c == {j \in 1..(k - 1) : evs[j].c.op = "write_file" /\ evs[j].c.a.pid = pid}
+    IN  IF c = {} THEN 0 ELSE CHOOSE j \in c : \A j2 \in c : j2 <= j
+
 \* latest earlier successful write of exactly these bytes (0 = none)
 PrevWrite(evs, k, bytes) ==
     LET c == {j \in 1..(k - 1) : evs[j].c.op = "write" /\ evs[j].r.st = "ok" /\ evs[j].r.bytes = bytes}
@@ -92,11 +103,20 @@ Explains(fam, cfg, evs, k) ==
     LET e == evs[k]  c == e.c  r == e.r
         dl == IF fam = "gff" THEN Dialect(cfg.dialect) ELSE Dialect("gff3")
     IN
-    CASE c.op = "write" ->
+    CASE c.op \in {"write", "write_file"} ->
            /\ r.st = "ok" /\ r.errs = 0
            /\ c.a.q \in {0, 1}
            /\ IF fam = "gff" THEN \A i \in 1..Len(c.a.recs) : ValidGffRec(dl, c.a.recs[i], c.a.q)
                               ELSE \A i \in 1..Len(c.a.recs) : ValidBedRec(c.a.recs[i], c.a.q)
+      [] c.op = "read_file" ->
+           LET w == PrevWriteFile(evs, k, c.a.pid) IN
+           /\ r.st = "ok" /\ r.open = 1
+           /\ w # 0 /\ evs[w].r.st = "ok"
+           /\ Len(r.recs) = Len(evs[w].c.a.recs)
+           /\ \A i \in 1..Len(r.recs) :
+                /\ r.recs[i].ok \in {0, 1}
+                /\ IF fam = "gff" THEN GffRoundTrip(r.recs[i], evs[w].c.a.recs[i])
+                                  ELSE BedRoundTrip(r.recs[i], evs[w].c.a.recs[i])
       [] c.op = "read" ->
            /\ r.st = "ok"
            /\ \A i \in 1..Len(r.recs) : r.recs[i].ok \in {0, 1}
@@ -132,7 +152,7 @@ Exact(fam, cfg, evs, k) ==
     LET e == evs[k]  c == e.c  r == e.r
         dl == IF fam = "gff" THEN Dialect(cfg.dialect) ELSE Dialect("gff3")
     IN
-    CASE c.op = "write" ->
+    CASE c.op \in {"write", "write_file"} ->
            IF c.a.q = 1 THEN TRUE                      \* csv-quoted fields: no wire model
            ELSE IF fam = "gff" THEN GffWritten(dl, c.a.recs, r.bytes) ELSE BedWritten(c.a.recs, r.bytes)
       [] c.op = "read" /\ fam = "gff" /\ c.a.mode \in {"exact", "safe"} ->
